@@ -74,7 +74,7 @@ theorem bool_denies (b) : parseValue (.bool b) = .ff := by simp [parseValue, par
 theorem number_denies (i) : parseValue (.int i) = .ff := by simp [parseValue, parseListRule, listRuleShape]
 theorem mapping_denies (kvs t) : parseValue (.obj kvs t) = .ff := by
   simp [parseValue, parseListRule, listRuleShape]
-theorem opaque_denies (t b) : parseValue (.opaque t b) = .ff := by
+theorem other_denies (t b) : parseValue (.other t b) = .ff := by
   simp [parseValue, parseListRule, listRuleShape]
 /-- a list holding anything but strings and lists of strings denies -/
 theorem bad_member_denies (xs : List JVal) (t : Str) (x : JVal) (hx : x ∈ xs)
